@@ -13,6 +13,8 @@ def walk(tree):
     """Pre-order walk of an expression tree (lists)."""
     if isinstance(tree, list):
         yield tree
+        if tree and tree[0] == "sizeof":
+            return      # the operand of sizeof is not evaluated
         for x in tree[1:]:
             if isinstance(x, list):
                 if x and isinstance(x[0], str):
@@ -142,7 +144,7 @@ class Block:
         self.label = d.get("label")
         self.ev = d["ev"]
         self.term = d.get("term")
-        if self.term and "cond" in self.term and self.term.get("kind") != "BinaryOperator":
+        if self.term and "cond" in self.term:
             # clang reports the whole `a && b` / `a || b` as the condition of the block that ends the if/while/for,
             # but that block only evaluates the right-most operand (the others have their own blocks)
             t = self.term["cond"].get("tree")
@@ -170,7 +172,20 @@ class Func:
         self.entry = d.get("entry")
         self.exit = d.get("exit")
         self.blocks = {b["id"]: Block(b) for b in d["blocks"]}
+        # predecessors only from blocks reachable from the entry (clang keeps dead blocks, e.g. the loop-back block
+        # of `do { } while(0)`)
+        live = set()
+        st = [self.entry] if self.entry in self.blocks else []
+        while st:
+            x = st.pop()
+            if x in live:
+                continue
+            live.add(x)
+            st.extend(self.blocks[x].succs())
+        self.live = live
         for b in self.blocks.values():
+            if b.id not in live:
+                continue
             for s in b.succs():
                 if s in self.blocks:
                     self.blocks[s].preds.append(b.id)
